@@ -74,6 +74,7 @@ type Solver struct {
 	tier     string
 	seed     int
 	cache    sync.Map
+	liteCache sync.Map
 	mu       sync.Mutex
 	totalMS  int64
 	bySolver map[string]int
@@ -112,6 +113,10 @@ func splitGoal(g string) []string {
 // conjunct by conjunct (each is a smaller query); the obligation is
 // discharged only if every conjunct is.
 func (s *Solver) solve(o *Oblig) {
+	if o.NoSolve != "" {
+		o.Verdict, o.Solver, o.Raw = "unstatable", "none", o.NoSolve
+		return
+	}
 	if !o.Cover && o.Goal == "true" {
 		o.Verdict, o.Solver = "unsat", "syntactic"
 		return
@@ -156,6 +161,37 @@ func (s *Solver) solve(o *Oblig) {
 		}
 	}
 	script := o.script(true)
+	// stage A: length-only sequence axioms (a sound subset), short budget
+	if !o.Cover && strings.Contains(script, "(declare-fun blen ") {
+		lite := o.scriptLite()
+		if lite != script {
+			hl := sha256.Sum256([]byte(lite))
+			kl := hex.EncodeToString(hl[:12])
+			if v, ok := s.liteCache.Load(kl); ok {
+				if v.(bool) {
+					o.Verdict, o.Solver = "unsat", solvers[0].name + "(len-axioms)"
+					return
+				}
+			} else {
+				lf := filepath.Join(s.dir, kl+".lite.smt2")
+				os.WriteFile(lf, []byte(lite), 0o644)
+				lr := runSolver(solvers[0], lf, 2, s.seed)
+				os.Remove(lf)
+				s.mu.Lock()
+				s.totalMS += lr.ms
+				s.queries++
+				s.mu.Unlock()
+				s.liteCache.Store(kl, lr.verdict == "unsat")
+				if lr.verdict == "unsat" {
+					s.mu.Lock()
+					s.bySolver[solvers[0].name+"(len-axioms)"]++
+					s.mu.Unlock()
+					o.Verdict, o.Solver, o.TimeMS = "unsat", solvers[0].name+"(len-axioms)", lr.ms
+					return
+				}
+			}
+		}
+	}
 	h := sha256.Sum256([]byte(script))
 	key := hex.EncodeToString(h[:12])
 	ent := &cacheEntry{done: make(chan struct{})}
